@@ -1,5 +1,6 @@
 import BreezyVerif.Common
 import BreezyVerif.Model.C40
+import BreezyVerif.Model.C40F
 /-
 C40 driver.  Requests:
 
@@ -12,6 +13,11 @@ C40 driver.  Requests:
   md.to <stanza lines> <patch|~> <bundle|~>      -> lines
   md.from <lines>                                 -> `ok <stanza lines> <patch|~> <bundle|~>` | `E:<kind>`
   md.rt <stanza lines> <patch|~> <bundle|~>      -> the same, for `from_lines(file object of b"".join(to_lines()))`
+  pdate.fmt <secs> <offset>                       -> the timestamp string (spaces as `_`) | `E:<kind>`
+  pdate.parse <string, spaces as `_`>             -> `<secs> <offset>` | `E:<kind>`
+  md.fields <rid> <sha|~> <time> <tz> <target> <source|~> <message|~> <base rid>   (text = hex of its UTF-8, `-` = empty)
+                                                  -> stanza pairs `tag=hex,tag=hex,…` | `E:<kind>`
+  md.unfields <pairs> <T|F has bundle>            -> `ok <rid> <sha|~> <time> <tz> <target> <source|~> <message|~> <base rid>` | `E:<kind>`
   norm <hex>                                      -> hex
   verify <calculated hex> <stored hex>            -> T|F
 
@@ -121,6 +127,52 @@ def showParsed : Except DErr (Directive (List Line)) → String
   | .error e => showDErr e
   | .ok d => s!"ok {showLines d.fields} {showOptBytes d.patch} {showOptBytes d.bundle}"
 
+/-! fields -/
+
+def strOfHex (h : String) : Option Str := do
+  let b ← fromHex h
+  let s ← String.fromUTF8? (ByteArray.mk b.toArray)
+  pure s.toList
+
+def hexOfStr (s : Str) : String := toHex (String.ofList s).toUTF8.toList
+
+def optStrOfHex (h : String) : Option (Option Str) :=
+  if h == "~" then some none else (strOfHex h).map some
+
+def hexOfOptStr : Option Str → String
+  | none => "~"
+  | some s => hexOfStr s
+
+def keyName : Key → String
+  | .revisionId => "revision_id" | .targetBranch => "target_branch" | .testamentSha1 => "testament_sha1"
+  | .timestamp => "timestamp" | .sourceBranch => "source_branch" | .message => "message"
+  | .baseRevisionId => "base_revision_id" | .other n => String.ofList n
+
+def keyOfName (n : String) : Key :=
+  if n == "revision_id" then .revisionId else if n == "target_branch" then .targetBranch
+  else if n == "testament_sha1" then .testamentSha1 else if n == "timestamp" then .timestamp
+  else if n == "source_branch" then .sourceBranch else if n == "message" then .message
+  else if n == "base_revision_id" then .baseRevisionId else .other n.toList
+
+def showFErr : FErr → String
+  | .invalidOffset => "E:InvalidOffset" | .negativeTime => "E:NegativeTime" | .yearNotModelled => "unmodelled"
+  | .shapeNotModelled => "unmodelled" | .badOffset => "E:BadOffset" | .badDate => "E:BadDate"
+  | .missingKey => "E:KeyError" | .typeError => "E:TypeError" | .noMergeSource => "E:NoMergeSource"
+
+def showStanza (st : Stanza) : String :=
+  joinList (st.map fun kv => s!"{keyName kv.1}={hexOfStr kv.2}")
+
+def parseStanza (s : String) : Option Stanza :=
+  (splitList s).mapM fun kv =>
+    match kv.splitOn "=" with
+    | [k, v] => (strOfHex v).map fun v => (keyOfName k, v)
+    | _ => none
+
+def unders (s : Str) : String := String.ofList (s.map fun c => if c = ' ' then '_' else c)
+
+def showFields (f : Fields) : String :=
+  s!"ok {hexOfStr f.revisionId} {hexOfOptStr f.testamentSha1} {f.time} {f.timezone} {hexOfStr f.targetBranch} {hexOfOptStr f.sourceBranch} {hexOfOptStr f.message} {hexOfStr f.baseRevisionId}"
+
 def handle : List String → String
   | ["v4", sel, base, target, sr, si, st, tr, ti, tt] =>
     match parseSel sel, base.toNat?, target.toNat?, parseRepo sr si st, parseRepo tr ti tt with
@@ -156,6 +208,32 @@ def handle : List String → String
     | some s, some p, some b =>
       showParsed (fromLines blockCodec (splitNL (joinLines (toLines blockCodec ⟨s, p, b⟩))))
     | _, _, _ => "bad-op"
+  | ["pdate.fmt", secs, off] =>
+    match secs.toInt?, off.toInt? with
+    | some secs, some off =>
+      match formatPatchDate secs off with
+      | .ok s => unders s
+      | .error e => showFErr e
+    | _, _ => "bad-op"
+  | ["pdate.parse", s] =>
+    match parsePatchDate (s.toList.map fun c => if c = '_' then ' ' else c) with
+    | .ok (t, z) => s!"{t} {z}"
+    | .error e => showFErr e
+  | ["md.fields", rid, sha, time, tz, tb, src, msg, bid] =>
+    match strOfHex rid, optStrOfHex sha, time.toInt?, tz.toInt?, strOfHex tb, optStrOfHex src, optStrOfHex msg,
+        strOfHex bid with
+    | some rid, some sha, some time, some tz, some tb, some src, some msg, some bid =>
+      match toPairs ⟨rid, sha, time, tz, tb, src, msg, bid⟩ with
+      | .ok st => showStanza st
+      | .error e => showFErr e
+    | _, _, _, _, _, _, _, _ => "bad-op"
+  | ["md.unfields", pairs, hb] =>
+    match parseStanza pairs, (if hb == "T" then some true else if hb == "F" then some false else none) with
+    | some st, some hb =>
+      match fromPairs st hb with
+      | .ok f => showFields f
+      | .error e => showFErr e
+    | _, _ => "bad-op"
   | ["norm", h] =>
     match fromHex h with
     | some b => toHex (norm b)
